@@ -471,6 +471,25 @@ func bitsBinop(op token.Token, x, y Val, t types.Type) (Val, bool) {
 	}
 	switch op {
 	case token.ADD, token.SUB:
+		// a sum of bit vectors that share no position is their union (no carry can arise)
+		if op == token.ADD {
+			if bx, okx := exactBits(x, w, signed); okx {
+				if by, oky := exactBits(y, w, signed); oky && len(bx.B) == len(by.B) && !(isConstVal(x) && isConstVal(y)) {
+					disjoint, mixed := true, false
+					for i := range bx.B {
+						if bx.B[i].K != '0' && by.B[i].K != '0' {
+							disjoint = false
+						}
+						if bx.B[i].K != '0' && bx.B[i].K != '1' || by.B[i].K != '0' && by.B[i].K != '1' {
+							mixed = true
+						}
+					}
+					if disjoint && mixed {
+						return bitsBinop(token.OR, x, y, t)
+					}
+				}
+			}
+		}
 		// const on the right (or left for ADD)
 		if cy, ok := y.(Const); ok && cy.V != nil && cy.V.Kind() == constant.Int {
 			c, _ := constant.Int64Val(cy.V)
@@ -892,4 +911,17 @@ func bitsCmpConst(op token.Token, x, y Val) (result, ok bool) {
 		}
 	}
 	return false, false
+}
+
+// exactBits: v as a bit vector without approximation (a vector or an integer constant).
+func exactBits(v Val, w int, signed bool) (Bits, bool) {
+	switch x := v.(type) {
+	case Bits:
+		return x, true
+	case Const:
+		if x.V != nil && x.V.Kind() == constant.Int {
+			return constBits(x.V, w, signed), true
+		}
+	}
+	return Bits{}, false
 }
